@@ -217,7 +217,7 @@ def fit_jobs(run):
     if run.quick():
         plan = [("daily", "current-weekday"), ("daily", "legacy"), ("daily", "current-dev"), ("daily", "legacy-dev"),
                 ("billing", "billing"), ("billing", "billing-season"),
-                ("hourly", "default"), ("hourly", "reversed-solar"), ("hourly", "supplemental"), ("hourly", "no-edge-bins"),
+                ("hourly", "default"), ("hourly", "reversed-solar"), ("hourly", "supplemental-names"), ("hourly", "no-edge-bins"),
                 ("caltrack", "caltrack"), ("caltrack", "caltrack-4weeks")]
     else:
         plan = []
